@@ -75,11 +75,24 @@ impl Harness {
                 let n = rng.usize(0, 300);
                 RMsg::Unknown(22, rng.bytes(n))
             }
-            _ => RMsg::SetPeerBw(rng.u32(), 2),
+            _ => match rng.below(6) {
+                // every other control message a peer may legitimately send, with values around
+                // typical windows: none of them may influence the acknowledgement accounting
+                0 => RMsg::SetPeerBw(rng.u32(), rng.below(3) as u8),
+                1 => RMsg::SetPeerBw(*rng.pick(&[0u32, 1, 2, 10, 50, 300, 1000, 5000]), rng.below(3) as u8),
+                2 => RMsg::Abort(rng.below(8) as u32),
+                3 => RMsg::UserControl(3, vec![rng.below(4) as u32, rng.u32()]),
+                4 => RMsg::UserControl(*rng.pick(&[1u16, 2, 4, 31, 32]), vec![rng.below(4) as u32]),
+                _ => RMsg::SetChunkSize(*rng.pick(&[1u32, 64, 128, 4096, 100_000])),
+            },
         };
         let csid = if m.type_id() == 22 { 7 } else { 2 };
         let msg = Msg { type_id: m.type_id(), msid: 0, ts: 0, data: m.body() };
-        self.enc.encode_simple(&msg, csid)
+        let bytes = self.enc.encode_simple(&msg, csid);
+        if let RMsg::SetChunkSize(n) = m {
+            self.enc.chunk_size = n as usize;
+        }
+        bytes
     }
 
     fn window_msg(&mut self, w: u32) -> Vec<u8> {
@@ -235,7 +248,7 @@ fn call_size(rng: &mut Rng, w: u32, cap: usize) -> usize {
 }
 
 /// > 4 GiB of valid traffic with W = 2^32 - 1: reaches the counter arithmetic.
-fn volume_run(server: bool, out: &mut Out) {
+fn volume_run(server: bool, windows: u64, out: &mut Out) {
     out.eval(1);
     rml_rtmp::verif_hooks::set_clock_ms(Some(5));
     let mut enc = Encoder::new();
@@ -322,8 +335,9 @@ fn volume_run(server: bool, out: &mut Out) {
     if !step(&mut sess, &first, false, &mut outstanding, &mut acks_seen, 0, out) {
         return;
     }
-    // 2 x (2^32 - 1) bytes and a bit: two acknowledgements must appear, none early
-    let blocks = (2 * (w as u64) / block.len() as u64) + 3;
+    // 2^32 - 1 bytes and a bit (thorough: twice that): the acknowledgement(s) must appear in
+    // exactly the call that crosses the window, none early
+    let blocks = (windows * (w as u64) / block.len() as u64) + 3;
     for _ in 0..blocks {
         if !step(&mut sess, &block, true, &mut outstanding, &mut acks_seen, fed, out) {
             return;
@@ -351,11 +365,11 @@ impl Check for C17 {
         p.cpu_budget_s = 240.0;
         p
     }
-    fn run_case(&self, _tier: Tier, k: u64, rng: &mut Rng, out: &mut Out) {
+    fn run_case(&self, tier: Tier, k: u64, rng: &mut Rng, out: &mut Out) {
         let _cg = ClockGuard;
         if k < 2 {
-            volume_run(k == 0, out);
-            out.sample(|| json!({"kind": "volume run", "window": 0xFFFF_FFFFu32, "session": if k == 0 {"server"} else {"client"}, "bytes": "2 x (2^32-1) + 48 MiB in 16 MiB calls"}));
+            volume_run(k == 0, tier.pick(1, 2), out);
+            out.sample(|| json!({"kind": "volume run", "window": 0xFFFF_FFFFu32, "session": if k == 0 {"server"} else {"client"}, "bytes": "(2^32-1) + 48 MiB in 16 MiB calls (thorough: 2 x (2^32-1) + 48 MiB)"}));
             return;
         }
         let k2 = k - 2;
@@ -427,7 +441,7 @@ impl Check for C17 {
         out.sample(|| json!({"session": if server {"server"} else {"client"}, "announcements(call,W)": ann, "call_sizes": calls}));
     }
     fn rule(&self) -> String {
-        "both session kinds; the peer stream is reference-encoded: WindowAcknowledgement(W) at the start of a chosen call followed by valid filler traffic (ping requests/responses, acknowledgements, stream-begin, unknown type-22 messages, set-peer-bandwidth). Exhaustive: W = 1..64 x every call-size pattern of length 1..4 over {0, 1, W-1, W, W+1} x {server, client} (99,840 histories). Sampled: W from {1..64, 65..1000, 10^3..10^6, 2^24, 2^31, 2^32-1, 2.5M}, 2-40 calls with sizes from {0,1,W-1,W,W+1,2W+3,random} (capped at 300,000 bytes), window re-announcements mid-stream. Volume: W = 2^32-1 and 2 x (2^32-1) + 48 MiB bytes in 16 MiB calls for each session kind. The acknowledgements of every call are extracted by independently decoding the returned packets. distinct = (session kind, window class, #announcements, #calls).".to_string()
+        "both session kinds; the peer stream is reference-encoded: WindowAcknowledgement(W) at the start of a chosen call followed by valid filler traffic (ping requests/responses, acknowledgements, stream-begin and the other user-control events, set-buffer-length, unknown type-22 messages, set-peer-bandwidth of all three limit types with sizes around typical windows, abort, set-chunk-size). Exhaustive: W = 1..64 x every call-size pattern of length 1..4 over {0, 1, W-1, W, W+1} x {server, client} (99,840 histories). Sampled: W from {1..64, 65..1000, 10^3..10^6, 2^24, 2^31, 2^32-1, 2.5M}, 2-40 calls with sizes from {0,1,W-1,W,W+1,2W+3,random} (capped at 300,000 bytes), window re-announcements mid-stream. Volume: W = 2^32-1 and (2^32-1) + 48 MiB bytes (thorough: 2 x (2^32-1) + 48 MiB) in 16 MiB calls for each session kind. The acknowledgements of every call are extracted by independently decoding the returned packets. distinct = (session kind, window class, #announcements, #calls).".to_string()
     }
     fn assumptions(&self) -> Vec<String> {
         vec![
